@@ -42,7 +42,29 @@ PROVED_LEGS = {"felt-roundtrip", "class-extract", "class-reserialize", "compress
                "decompress-panic", "de-panic", "ser-panic", "compress-panic"}
 
 
+def load_pending_findings(ctx):
+    """props/c18.findings.txt: findings reported to the lead, same format as known_findings.txt."""
+    p = os.path.join(os.path.dirname(os.path.abspath(__file__)), "c18.findings.txt")
+    if not os.path.exists(p):
+        return
+    for line in open(p):
+        m = re.match(r"(known):\s+property=(C\d+)\s+(?:fingerprint=(\S+)\s+)?(.*)", line.strip())
+        if m and m.group(3):
+            ctx.known_findings.append({"kind": "known", "property": m.group(2),
+                                       "fingerprint": m.group(3), "text": m.group(4)})
+
+
+def fingerprint_of(f):
+    """leg:corpus-file for failures on a repo file, else leg + reason."""
+    leg = f.get("leg", "?")
+    inp = f.get("input")
+    if isinstance(inp, dict) and isinstance(inp.get("corpus"), str):
+        return "%s:%s" % (leg, os.path.basename(inp["corpus"]))
+    return "%s %s" % (leg, f.get("why", ""))
+
+
 def run(ctx):
+    load_pending_findings(ctx)
     ok_build, _ = vlib.cargo_build(ctx, "h18")
     ok_make, _ = vlib.coq_make(ctx, "C18")
     cone = vlib.cone_files("C18")
@@ -88,17 +110,21 @@ def run(ctx):
 
     # --- decide ---
     seen = set()
+    n_before = len(ctx.violations)
     for f in oracle_bad:
         leg = f.get("leg", "?")
-        if leg in seen or len(seen) >= 6:       # one replay per leg is enough
+        fp = fingerprint_of(f)
+        key = fp if ":" in fp.split(" ")[0] else leg      # one replay per leg / per corpus file
+        if key in seen or len(seen) >= 8:
             continue
-        seen.add(leg)
+        seen.add(key)
         label = "" if leg in PROVED_LEGS else " (explored leg: no Coq model of this format)"
         ctx.violation("a Sierra program / felt vector does not survive serialization on the "
                       "implementation: leg %s%s: %s" % (leg, label, f.get("why", "")),
                       dict(f, replay_cmd="VERIF_SEED=%d ./check C18 --tier %s" % (ctx.seed, ctx.tier)),
-                      found_input=True, fingerprint="%s %s" % (leg, f.get("why", "")))
-    if corr_bad and not oracle_bad:
+                      found_input=True, fingerprint=fp)
+    oracle_new = len(ctx.violations) - n_before        # oracle failures that are not known findings
+    if corr_bad and not oracle_new:
         kinds = sorted({os.path.basename(s).split("_")[0] for s, _ in corr_bad})
         # The always-on oracle above is the search for a concrete failing input of the property
         # on the implementation (round trips over corpus, generator and random vectors); it found
